@@ -71,6 +71,7 @@ def worker_task(task):
         eng = SymEngine()
         SymNum._default_engine = eng
         eng.known_ids = set(known_ids)
+        eng.smt_dump_limit = 2 if want_profile else 0
 
         def fn(e):
             h.run(e, params)
@@ -83,7 +84,7 @@ def worker_task(task):
         left = eng.explore(fn, stack, budget_s=budget_s)
         return {"job": job_idx, "stats": eng.stats.as_dict(), "findings": eng.findings[:20],
                 "n_findings": len(eng.findings), "known": eng.known[:20], "n_known": len(eng.known),
-                "samples": eng.samples, "leftover": left, "functions": sorted(funcs),
+                "samples": eng.samples, "leftover": left, "functions": sorted(funcs), "smt": eng.smt_dumps,
                 "wall": time.perf_counter() - t0, "error": None}
     except Inconclusive as e:
         return {"job": job_idx, "error": "inconclusive: %s" % e, "leftover": [], "stats": {}}
@@ -191,6 +192,39 @@ def validate_witnesses(pid, jobs, per_job, known_ids, max_cases=40):
     return len(cases), [{"job": "*", "ok": False, "why": "witness process failed: " + (p.stderr[-800:] or p.stdout[-800:])}]
 
 
+def solver_diff(queries):
+    """Re-decide dumped final queries (SMT-LIB2) with the system z3 4.8.12 and cvc5 binaries; report disagreements."""
+    import shutil
+    import tempfile
+    solvers = []
+    if shutil.which("/usr/bin/z3"):
+        solvers.append(("z3-4.8.12", ["/usr/bin/z3", "-T:20"]))
+    if shutil.which("cvc5"):
+        solvers.append(("cvc5", ["cvc5", "--tlimit=20000"]))
+    bad, n = [], 0
+    for text, expected in queries:
+        with tempfile.NamedTemporaryFile("w", suffix=".smt2", delete=False) as f:
+            f.write(text)
+            path = f.name
+        try:
+            for name, cmd in solvers:
+                try:
+                    p = subprocess.run(cmd + [path], stdout=subprocess.PIPE, stderr=subprocess.STDOUT, text=True, timeout=40)
+                    out = p.stdout.strip().splitlines()
+                except subprocess.TimeoutExpired:
+                    continue
+                if any("(error" in l for l in out):
+                    continue          # inconclusive for this solver (e.g. unsupported construct): not a disagreement
+                verdict = next((l.strip() for l in out if l.strip() in ("sat", "unsat", "unknown")), "unknown")
+                if verdict in ("sat", "unsat"):
+                    n += 1
+                    if verdict != expected:
+                        bad.append((name, expected, verdict))
+        finally:
+            os.unlink(path)
+    return n, bad, [s[0] for s in solvers]
+
+
 def write_replay(pid, params, finding, known_ids, kind="violation"):
     os.makedirs(os.path.join(VERIF, "replays"), exist_ok=True)
     rec = {"property": pid, "params": params, "inputs": finding["inputs"], "choices": finding["choices"],
@@ -264,6 +298,7 @@ def run_check(pid, tier, seed=0, workers=None, only_job=None):
                 if len(pj["samples"]) < 4:
                     pj["samples"].extend(res["samples"][:2])
                 pj["functions"].update(res["functions"])
+                pj.setdefault("smt", []).extend(res.get("smt", []))
                 pj["wall"] += res["wall"]
                 pj["tasks"] += 1
                 left = res["leftover"]
@@ -323,6 +358,9 @@ def run_check(pid, tier, seed=0, workers=None, only_job=None):
     n_wit, bad_wit = (0, [])
     if not violations and not os.environ.get("VERIF_NO_WITNESS"):
         n_wit, bad_wit = validate_witnesses(pid, jobs, per_job, known_ids)
+    n_diff, bad_diff, diff_solvers = (0, [], [])
+    if tier == "thorough" and not violations and not os.environ.get("VERIF_NO_SOLVER_DIFF"):
+        n_diff, bad_diff, diff_solvers = solver_diff([q for pj in per_job for q in pj.get("smt", [])][:60])
     vacuous = [jobs[j].get("name") for j, pj in enumerate(per_job)
                if pj["stats"].asserts_reached == 0 and not any(jobs[j].get("name") == e[0] for e in errors)]
     complete = not capped and not errors
@@ -340,6 +378,9 @@ def run_check(pid, tier, seed=0, workers=None, only_job=None):
     if capped and status == 0:
         status = 2
         msgs.append("wall-clock cap of %.0fs hit before the frontier emptied" % cap_s)
+    if bad_diff and status == 0:
+        status = 2
+        msgs.append("solver cross-check disagrees on %d of %d final queries: %s" % (len(bad_diff), n_diff, bad_diff[:3]))
     if bad_wit and status == 0:
         status = 2
         msgs.append("encoding validation failed: %d of %d sampled paths behave differently on the unshimmed code: %s"
@@ -353,6 +394,8 @@ def run_check(pid, tier, seed=0, workers=None, only_job=None):
     wall = time.perf_counter() - t_start
     evidence = build_evidence(pid, tier, seed, h, jobs, per_job, total, wall, complete, violations,
                               known_reproduced, nonrepro, errors, capped, workers)
+    evidence["coverage"]["final_queries_cross_checked_with_other_solvers"] = n_diff
+    evidence["coverage"]["cross_check_solvers"] = diff_solvers
     evidence["coverage"]["witness_paths_replayed_on_unshimmed_code"] = n_wit
     evidence["coverage"]["witness_paths_diverging"] = len(bad_wit)
     evdir = os.environ.get("VERIF_EVIDENCE_DIR") or os.path.join(VERIF, "evidence")
